@@ -15,12 +15,14 @@
      C01_text_tombstone_time_depends_on_order.)
    - that the server's delivery discipline is a per-client exactly-once,
      in-order stream (Props/C04.v), i.e. every replica applies the same set.
-   PARTIAL: the commutation premises for array move/delete/set, text styles,
-   n-ary text batches and tree are not proved; for those C01 is decided by the
+     Any number of pairwise concurrent honest edits made on a common text give
+     the same text in every execution order (C01_text_batch_converges).
+   PARTIAL: the commutation premises for array move/delete/set, text styles
+   and tree are not proved; for those C01 is decided by the
    differential structure engines (model = code) plus the convergence oracle on
    real multi-client histories. *)
 From Coq Require Import List Permutation.
-From YV Require Import Crdt.RGAList Crdt.ElemRHT Proofs.SEC Proofs.RGAProofs Proofs.ERHTProofs Proofs.ERHTCommute Proofs.ERHTDecode Proofs.ERHTRemove Proofs.RGACommuteGen Crdt.TextRGA Proofs.TextProofs.
+From YV Require Import Crdt.RGAList Crdt.ElemRHT Proofs.SEC Proofs.RGAProofs Proofs.ERHTProofs Proofs.ERHTCommute Proofs.ERHTDecode Proofs.ERHTRemove Proofs.RGACommuteGen Crdt.TextRGA Proofs.TextProofs Proofs.TextBatch.
 
 Theorem C01_convergence_from_commutation :
   forall (S O : Type) (apply : S -> O -> option S) (hb : O -> O -> Prop) (Inv : S -> Prop),
@@ -79,7 +81,7 @@ Print Assumptions C01_object_sets_converge.
 Theorem C01_object_batch_converges : forall h l1 l2,
   rht_wf h -> all_fresh_o h l1 -> batch_ok l1 -> Permutation l1 l2 ->
   forall k, linked (fold_left apply_oop l1 h) k = linked (fold_left apply_oop l2 h) k.
-Proof. exact batch_converges. Qed.
+Proof. exact ERHTRemove.batch_converges. Qed.
 Print Assumptions C01_object_batch_converges.
 
 (* text: what an honest edit does *)
@@ -113,3 +115,11 @@ Theorem C01_text_tombstone_time_depends_on_order :
   option_map shape (obind (ex_a ex_text) ex_b) = option_map shape (obind (ex_b ex_text) ex_a).
 Proof. exact del_time_order_dependent. Qed.
 Print Assumptions C01_text_tombstone_time_depends_on_order.
+
+(* text: any number of pairwise concurrent honest edits, any two execution orders *)
+Theorem C01_text_batch_converges : forall ops1 ops2 l,
+  Permutation ops1 ops2 -> good ops1 l ->
+  option_map shape (run_te ops1 (Some l)) = option_map shape (run_te ops2 (Some l)) /\
+  option_map TextRGA.visible (run_te ops1 (Some l)) = option_map TextRGA.visible (run_te ops2 (Some l)).
+Proof. intros ops1 ops2 l HP Hg. split; [now apply TextBatch.batch_converges|now apply batch_same_text]. Qed.
+Print Assumptions C01_text_batch_converges.
